@@ -96,6 +96,7 @@ func checkC14(w *World, r *Report) {
 	c14DefaultRule(w, r, pa, fa)
 	c14ConfigType(w, r)
 	c14RuleFailureFailsSet(w, r, fa)
+	c14OneMechanismPerStep(w, r, fa)
 	// a type-confused rule definition panics while it is processed; the panic must come out as an error
 	c19RecoverIntoResult(w, r, "C14.8")
 }
